@@ -44,11 +44,16 @@ package livesql
 
 // The dependency is registered before the query runs (no update between the two can be missed).
 //@ nonnil livesql.LiveDB.DB         // NewLiveDB always wraps a *sqlgen.DB
+//@ nonnil livesql.LiveDB.tracker    // NewLiveDB always allocates the tracker
+//@ nonnil sqlgen.DB.Schema          // a DB is constructed around its schema
 //@ func LiveDB.query$1
+//@   keeps sqlgen.BaseSelectQuery, sqlgen.Table, LiveDB, sqlgen.DB     // building the tester and registering the dependency do not rewrite the query, the table descriptor or the handle
 //@   ghost registered bool
 //@   entry ghost registered = false
+//@   call Schema.MakeTester assert arg1 == query.Table.Name && arg2 == query.Filter
+//@   call dbTracker.registerDependency assert arg3 == query.Table.Name && arg4 == tester && arg5 == query.Filter
 //@   call dbTracker.registerDependency ghost registered = true
-//@   call DB.BaseQuery assert registered
+//@   call DB.BaseQuery assert registered && arg2 == query
 
 // RunPollLoop: a rows event of this database whose decoding failed (and was logged) still delivers an update
 // for its table with err set, so that every live query on the table is invalidated.
@@ -119,3 +124,25 @@ package livesql
 //@   assume table != nil
 //@   ensures err == nil ==> result != nil && len(result.source) == len(table.Columns)
 //@   loop 2 invariant -1 <= rangeindex && rangeindex < len(table.Columns) && columnMap != nil && fresh(columnMap) && len(columnMap.source) == rangeindex+1
+
+// registerDependency: the resource the computation is made to depend on is the one that goes into the tracker, carrying this
+// query's table and tester; its cleanup takes exactly that entry out of the tracker again. Each step happens once.
+//@ func dbTracker.registerDependency
+//@   requires t != nil
+//@   keeps dbResource                         // package reactive cannot reach the unexported resource record
+//@   ghost ndep int
+//@   ghost nadd int
+//@   ghost nclean int
+//@   entry ghost ndep = 0
+//@   entry ghost nadd = 0
+//@   entry ghost nclean = 0
+//@   call NewResource assume ret0 != nil
+//@   call Resource.Cleanup assert arg0 == r.resource
+//@   call Resource.Cleanup ghost nclean = nclean + 1
+//@   call AddDependency assert arg1 == r.resource
+//@   call AddDependency ghost ndep = ndep + 1
+//@   call dbTracker.add assert arg0 == t && arg1 == r && r.table == table && r.tester == tester && r.resource != nil
+//@   call dbTracker.add ghost nadd = nadd + 1
+//@   ensures ndep == 1 && nadd == 1 && nclean == 1
+//@ func dbTracker.registerDependency$1
+//@   call dbTracker.remove assert arg0 == t && arg1 == r
